@@ -562,7 +562,11 @@ def natural_run(tdgl, a, tmp):
         if ref is None:
             mism = float("inf")
         else:
-            mism = float(np.max(np.abs(np.asarray(res[0]) - np.asarray(ref[0]))))
+            # compared on the sites that are not pinned (where a re-imposed terminal value may legitimately differ)
+            free = np.ones(nsites, dtype=bool)
+            free[tsites] = False
+            free[api_sites] = False
+            mism = float(np.max(np.abs(np.asarray(res[0]) - np.asarray(ref[0]))[free]))
         st["max_step_mismatch"] = max(st["max_step_mismatch"], mism)
         st["pending"]["stepfresh"] = bool(mism <= 1e-12)
         st["later_iter"] += bool(st["changed_in_step"])
